@@ -1347,11 +1347,126 @@ Qed.
 
 Lemma Inv3_init blk o sa pw : Inv3 (init blk o sa pw).
 Proof.
-  unfold Inv3, init; cbn. constructor; simpl; auto; try tauto. intros; tauto.
+  unfold Inv3, init; cbn. constructor; simpl; auto; try tauto.
 Qed.
 
 Lemma Inv123_steps s s' : steps s s' -> Inv1 s /\ Inv2 s /\ Inv3 s -> Inv1 s' /\ Inv2 s' /\ Inv3 s'.
 Proof.
   induction 1; auto. intros (A & B & C). apply IHsteps.
-  repeat split; eauto using Inv1_prim, Inv2_prim, Inv3_prim.
+  split; [|split].
+  - eapply Inv1_prim; eauto.
+  - eapply Inv2_prim; eauto.
+  - eapply Inv3_prim; eauto.
 Qed.
+
+(* ------------------------------------------------------------------ *)
+(* the theorems, on the chronological trace                            *)
+(* ------------------------------------------------------------------ *)
+Lemma acc_app t1 t2 id : acc (t1 ++ t2) id = acc t1 id + acc t2 id.
+Proof. induction t1 as [|e t1 IH]; simpl; auto. destruct e; auto. rewrite IH. lia. Qed.
+
+Lemma acc_rev t id : acc (rev t) id = acc t id.
+Proof.
+  induction t as [|e t IH]; simpl; auto. rewrite acc_app, IH. destruct e; simpl; lia.
+Qed.
+
+Lemma cb_ids_app t1 t2 : cb_ids (t1 ++ t2) = cb_ids t1 ++ cb_ids t2.
+Proof. induction t1 as [|e t1 IH]; simpl; auto. destruct e; simpl; auto. rewrite IH; auto. Qed.
+
+Lemma cb_ids_rev t : cb_ids (rev t) = rev (cb_ids t).
+Proof.
+  induction t as [|e t IH]; simpl; auto. rewrite cb_ids_app, IH. destruct e; simpl; auto using app_nil_r.
+Qed.
+
+Lemma chunks_app t1 t2 : chunks (t1 ++ t2) = chunks t1 ++ chunks t2.
+Proof. induction t1 as [|e t1 IH]; simpl; auto. destruct e; simpl; auto. rewrite IH; auto. Qed.
+
+Lemma chunks_rev t : chunks (rev t) = rev (chunks t).
+Proof.
+  induction t as [|e t IH]; simpl; auto. rewrite chunks_app, IH. destruct e; simpl; auto using app_nil_r.
+Qed.
+
+Lemma sorted_gt_rev l : StronglySorted gt l -> StronglySorted lt (rev l).
+Proof.
+  induction 1; simpl. constructor. apply sorted_app_last; auto.
+  rewrite Forall_forall in *. intros y Hy. apply in_rev in Hy. apply H0 in Hy. lia.
+Qed.
+
+Lemma sorted_lt_NoDup l : StronglySorted lt l -> NoDup l.
+Proof.
+  induction 1; constructor; auto. intros X. rewrite Forall_forall in H0. apply H0 in X. lia.
+Qed.
+
+Section Final.
+Variable beh : nat -> list op.
+Variables (blk : bool) (o : list answer) (sa : Z) (pw : list bool) (ops : list op).
+Let s := exec beh (init blk o sa pw) ops.
+
+Lemma final_inv : Inv1 s /\ Inv2 s /\ Inv3 s /\ pq s = [].
+Proof.
+  destruct (exec_steps beh blk o sa pw ops) as [S P]. fold s in S, P.
+  destruct (Inv123_steps _ _ S) as (A & B & C).
+  - split; [apply Inv1_init | split; [apply Inv2_init | apply Inv3_init]].
+  - auto.
+Qed.
+
+Lemma live_final : live s = cq s ++ wq s.
+Proof. destruct final_inv as (_ & _ & _ & P). unfold live. rewrite P. reflexivity. Qed.
+
+(* C05_cb_exactly_once_in_order *)
+Theorem cb_exactly_once_in_order :
+  StronglySorted lt (cb_ids (trace s)) /\
+  (forall id, In (ERet id 0%Z) (trace s) ->
+     (In id (cb_ids (trace s)) /\ ~ In id (map r_id (cq s ++ wq s))) \/
+     (~ In id (cb_ids (trace s)) /\ In id (map r_id (cq s ++ wq s)))) /\
+  (forall id c, In (ERet id c) (trace s) -> c <> 0%Z ->
+     ~ In id (cb_ids (trace s)) /\ ~ In id (map r_id (cq s ++ wq s))) /\
+  NoDup (map r_id (cq s ++ wq s)).
+Proof.
+  destruct final_inv as (_ & I2' & _ & _). unfold Inv2 in I2'. rewrite live_final in I2'.
+  destruct I2' as [A B C D E F G H I J K]. unfold trace. rewrite cb_ids_rev.
+  rewrite map_kid_lkey in *.
+  assert (Hdisj : forall id, In id (cb_ids (tr s)) -> In id (map r_id (cq s ++ wq s)) -> False).
+  { intros id H1 H2. apply in_map_iff in H2. destruct H2 as (r & <- & Hr).
+    specialize (E (r_id r) (lkey r) H1 (in_map lkey _ _ Hr)). unfold kid, lkey in E; simpl in E. lia. }
+  split; [apply sorted_gt_rev; auto|]. split; [|split].
+  - intros id Hr. apply in_rev in Hr. destruct (I id Hr) as [X|X]; [left | right]; split; auto.
+    + apply in_rev in X. exact X.
+    + intros Y. eapply Hdisj; eauto.
+    + intros Y. apply in_rev in Y. eapply Hdisj; eauto.
+  - intros id c Hr Hc. apply in_rev in Hr. destruct (J id c Hr Hc) as [X Y]. split; auto.
+    intros Z. apply in_rev in Z. auto.
+  - apply sorted_lt_NoDup; auto.
+Qed.
+
+(* C05_status_zero_only_if_all_accepted *)
+Theorem status_zero_only_if_all_accepted :
+  forall id tot q, In (EWrite id tot) (trace s) -> In (ECb id 0%Z q) (trace s) ->
+  acc (trace s) id = tot.
+Proof.
+  destruct final_inv as (_ & I2' & _ & _). destruct I2' as [A B C D E F G H I J K].
+  intros id tot q Hw Hc. unfold trace in *. rewrite acc_rev. apply in_rev in Hw, Hc.
+  destruct (G id q Hc) as (tot' & G1 & G2). rewrite G2. eauto.
+Qed.
+
+(* C05_bytes_in_order_once *)
+Theorem bytes_in_order_once :
+  expand (chunks (trace s)) =
+    flat_map (fun id => bytes_of id 0 (acc (trace s) id)) (seq 0 (next_id s)) /\
+  (forall id tot, In (EWrite id tot) (trace s) -> acc (trace s) id <= tot) /\
+  (forall id tot q, In (EWrite id tot) (trace s) -> In (ECb id 0%Z q) (trace s) ->
+     acc (trace s) id = tot) /\
+  (forall id tot, In (ETry id tot) (trace s) -> acc (trace s) id <= tot) /\
+  (forall id c, In (ETryRet id c) (trace s) -> acc (trace s) id = Z.to_N c).
+Proof.
+  destruct final_inv as (_ & I2' & I3' & _). destruct I2' as [A B C D E F G H I J K].
+  destruct I3' as [X1 X2 X3 X4 X5]. unfold trace. rewrite chunks_rev.
+  split; [|split; [|split; [|split]]].
+  - unfold sent in X1. rewrite X1. apply flat_map_ext. intros id. rewrite acc_rev. reflexivity.
+  - intros id tot Hw. rewrite acc_rev. apply in_rev in Hw. auto.
+  - intros id tot q Hw Hc. apply (status_zero_only_if_all_accepted id tot q Hw Hc).
+  - intros id tot Ht. rewrite acc_rev. apply in_rev in Ht. auto.
+  - intros id c Ht. rewrite acc_rev. apply in_rev in Ht. apply (X3 id c Ht).
+Qed.
+
+End Final.
